@@ -2,7 +2,7 @@
 from simkit.engine import Prop
 from simkit.gen_iredit import swarm_config
 from simkit.model import Snapshot
-from simkit.oracles.naming import lookup_answers, event_strings
+from simkit.oracles.naming import lookup_answers, event_strings, SCOPES
 from simkit.violation import Violation
 from simkit.world import World, kind_of
 from checks.c01 import REAL, STUB
@@ -32,11 +32,18 @@ class C14(Prop):
         cfg["names"] = rng.choice(["collide", "collide", "plain"])
         cfg["name_rate"] = rng.choice([0.6, 0.95])
         cfg["policy_start"] = rng.choice(["DEFAULT", "DEFAULT", "EDIF"])
+        # asking for lookups before every call makes the library build indexes it fills lazily; in a third of the runs
+        # nothing is asked before the call and the answers after a refusal are compared with a scan instead
+        cfg["lookups"] = rng.choice(["before_and_after", "before_and_after", "after_vs_scan"])
         return cfg
+
+    def start(self, w, cfg):
+        self.cfg = cfg
+        self.saw_refusal = False
 
     def before(self, w, ev):
         snap = Snapshot(w.roots())
-        looks = lookup_answers(snap.objs, event_strings(ev))
+        looks = lookup_answers(snap.objs, event_strings(ev)) if self.cfg.get("lookups") != "after_vs_scan" else None
         return snap, looks, World.process_state_fingerprint()
 
     def after(self, w, ev, outcome, pre):
@@ -53,7 +60,23 @@ class C14(Prop):
             raise Violation("C14.snapshot.%s.%s" % (kind_of(o), field), disc,
                             "%s of %s changed although the call was refused" % (field, w.name_of(o)))
         looks2 = lookup_answers(snap.objs, event_strings(ev))
-        if looks2 != looks:
+        if looks is None:
+            # no answers from before the call: the state is unchanged (snapshot), so an exact lookup must return a
+            # current member that carries the value, and nothing when no member carries it
+            for (oid, ck, key, v), got in looks2.items():
+                o = snap.byid[oid]
+                acc = [a for c2, a, cls, g in SCOPES[kind_of(o)] if c2 == ck][0]
+                kids = [c for c in getattr(o, acc) if isinstance(c.get(key), str)]
+                exact = [c for c in kids if c[key] == v]
+                # identifiers may be matched ignoring case (which policy indexes a parent is the library's business,
+                # also after the reserved '.NS' entries were edited): a case variant is an acceptable answer
+                loose = [c for c in kids if c[key].lower() == v.lower()] if key == "EDIF.identifier" else exact
+                members = exact
+                if (got is None and exact) or (got is not None and got not in [id(c) for c in loose]):
+                    raise Violation("C14.lookup.%s" % ck, disc,
+                                    "lookup of %r under %s in %s after the refused call returns %s, a scan finds %d" % (
+                                        v, key, w.name_of(o), "nothing" if got is None else "an element", len(members)))
+        elif looks2 != looks:
             for k in looks:
                 if looks2.get(k) != looks[k]:
                     raise Violation("C14.lookup.%s" % k[1], disc,
